@@ -1,1 +1,85 @@
-//! harnesses for c14 (filled in below)
+//! C14 — order-independence kernels: the Lexicographic / Morton / Hilbert insertion orderings do
+//! not depend on the order in which the caller listed the vertices.
+
+use crate::util::*;
+use delaunay::core::delaunay_triangulation::InsertionOrderStrategy;
+use delaunay::core::vertex::Vertex;
+use delaunay::geometry::point::Point;
+use delaunay::geometry::traits::coordinate::Coordinate;
+use delaunay::verif_hooks::dt as hooks;
+
+fn vtx(x: i32, y: i32, n: u64) -> Vertex<f64, (), 2> {
+    Vertex::new_with_uuid(Point::new([f64::from(x), f64::from(y)]), uuid_n(n), None)
+}
+
+macro_rules! order_independent {
+    ($name:ident, $strategy:expr, $unwind:literal) => {
+        harness! {
+            // bound: n=3 vertices, D=2, integer coordinates in [-2,2], every permutation of the input list
+            #[kani::unwind($unwind)]
+            fn $name() {
+                let c = [[any_grid(2), any_grid(2)], [any_grid(2), any_grid(2)], [any_grid(2), any_grid(2)]];
+                let v = [vtx(c[0][0], c[0][1], 1), vtx(c[1][0], c[1][1], 2), vtx(c[2][0], c[2][1], 3)];
+                let p: u8 = kani::any();
+                kani::assume(p < 5);
+                let perm: [usize; 3] = match p {
+                    0 => [0, 2, 1],
+                    1 => [1, 0, 2],
+                    2 => [1, 2, 0],
+                    3 => [2, 0, 1],
+                    _ => [2, 1, 0],
+                };
+                let w = [v[perm[0]], v[perm[1]], v[perm[2]]];
+                let a = hooks::order_vertices_by_strategy(v.to_vec(), $strategy);
+                let b = hooks::order_vertices_by_strategy(w.to_vec(), $strategy);
+                assert!(a.len() == 3 && b.len() == 3);
+                let distinct = c[0] != c[1] && c[0] != c[2] && c[1] != c[2];
+                let mut i = 0;
+                while i < 3 {
+                    // the coordinate sequence never depends on the input order
+                    assert!(a[i].point().coords()[0] == b[i].point().coords()[0]
+                        && a[i].point().coords()[1] == b[i].point().coords()[1],
+                        "insertion order (as coordinates) is independent of the input order");
+                    if distinct {
+                        assert!(a[i].uuid().as_u128() == b[i].uuid().as_u128(),
+                            "insertion order (as vertices) is independent of the input order");
+                    }
+                    i += 1;
+                }
+                kani::cover!(distinct && p == 4, "distinct points, reversed input reached");
+                kani::cover!(!distinct, "duplicate coordinates reached");
+                core::mem::forget(a);
+                core::mem::forget(b);
+            }
+        }
+    };
+}
+
+order_independent!(c14_order_independent_lex_n3, InsertionOrderStrategy::Lexicographic, 6);
+order_independent!(c14_order_independent_morton_n3, InsertionOrderStrategy::Morton, 35);
+order_independent!(c14_order_independent_hilbert_n3, InsertionOrderStrategy::Hilbert, 35);
+
+harness! {
+    // bound: determinism: the same n=3 input ordered twice gives the identical sequence, every strategy, D=2, coordinates in [-2,2]
+    #[kani::unwind(35)]
+    fn c14_order_deterministic_n3() {
+        let v = [vtx(any_grid(2), any_grid(2), 1), vtx(any_grid(2), any_grid(2), 2), vtx(any_grid(2), any_grid(2), 3)];
+        let s: u8 = kani::any();
+        kani::assume(s < 3);
+        let strategy = match s {
+            0 => InsertionOrderStrategy::Input,
+            1 => InsertionOrderStrategy::Lexicographic,
+            _ => InsertionOrderStrategy::Morton,
+        };
+        let a = hooks::order_vertices_by_strategy(v.to_vec(), strategy);
+        let b = hooks::order_vertices_by_strategy(v.to_vec(), strategy);
+        let mut i = 0;
+        while i < 3 {
+            assert!(a[i].uuid().as_u128() == b[i].uuid().as_u128(), "ordering the same input twice gives the same sequence");
+            i += 1;
+        }
+        kani::cover!(s == 2, "Morton reached");
+        core::mem::forget(a);
+        core::mem::forget(b);
+    }
+}
